@@ -359,8 +359,9 @@ class Ctx:
             # one replay file per failing stream (first failure of each), all in one file
             by = {}
             for v in viol:
-                by.setdefault((v['stream'], v['what']), v)
-            for (stream, what), v in list(by.items())[:5]:
+                shape = v['input'].get('shape') if isinstance(v['input'], dict) else None
+                by.setdefault((v['stream'], v['what'], shape), v)
+            for (stream, what, _shape), v in list(by.items())[:8]:
                 path = self.write_replay({
                     'property': self.pid, 'kind': v['kind'], 'stream': stream, 'what': what,
                     'input': v['input'], 'expected': v['expected'], 'observed': v['observed'],
